@@ -224,8 +224,13 @@ def gen_world(rng, profile):
         op_, bn = r.choice(zz)
         ops.append({"op": "constraint_mode", "obj": op_, "block": bn, "val": False, "inst": 0})
         ops.append({"op": "randomize", "target": [], "inline": None, "seed": r.randrange(1 << 30), "inst": 0})
-        if r.random() < 0.5:
+        if r.random() < 0.6:
             ops.append({"op": "constraint_mode", "obj": op_, "block": bn, "val": True, "inst": 0})
+            # ... and the lists it ranges over refilled before the next call: whatever the call made while the block was off
+            # did to the block's statements must not survive it
+            for fl in fixed_lists:
+                if r.random() < 0.7:
+                    ops.append({"op": "relist", "path": fl, "inst": 0})
     for i in range(ninst):
         ops.append({"op": "randomize", "target": [], "inline": None, "seed": r.randrange(1 << 30), "inst": i})
     scn["ops"] = ops
